@@ -213,6 +213,35 @@ Definition py_slice {A} (l : list A) (lo hi : option Z) : list A :=
   firstn (Z.to_nat (b - a)) (skipn (Z.to_nat a) l).
 
 (* ------------------------------------------------------------------ *)
+(** Capacities: a field declared [cap] holds [float("inf")] ([None]) or an
+    integer; [n >= capacity] is then [py_cap_le capacity n]. *)
+Definition py_cap_le (c : option Z) (n : Z) : bool :=
+  match c with None => false | Some c => c <=? n end.
+
+(** [deque.pop()] / [list.pop()]: the LAST element; [None] = IndexError. *)
+Definition py_pop_last {A} (l : list A) : option (list A * A) :=
+  match rev l with [] => None | x :: r => Some (rev r, x) end.
+
+Lemma py_pop_last_snoc {A} (l : list A) x : py_pop_last (l ++ [x]) = Some (l, x).
+Proof. unfold py_pop_last. rewrite rev_app_distr. cbn. now rewrite rev_involutive. Qed.
+
+Lemma py_pop_last_rev {A} (l : list A) :
+  py_pop_last (rev l) = match l with [] => None | x :: r => Some (rev r, x) end.
+Proof. unfold py_pop_last. rewrite rev_involutive. reflexivity. Qed.
+
+(** [heapq] on a list that is only ever touched through heappush / heappop /
+    [h[0]] / [len]: CPython's binary heap is outside /repo; it is rendered as a
+    list sorted by the element order [lt] (a new element goes before the first
+    one it is smaller than), whose head is what [heappop] and [h[0]] return when
+    [lt] is a strict total order — the same trusted reading as for the event
+    heap of the engine model. *)
+Fixpoint py_heappush {A} (lt : A -> A -> bool) (h : list A) (x : A) : list A :=
+  match h with
+  | [] => [x]
+  | e :: r => if lt x e then x :: h else e :: py_heappush lt r x
+  end.
+
+(* ------------------------------------------------------------------ *)
 (** Shape-independent automation for tie lemmas: case-split on every boolean test
     and every option scrutinee that occurs in the goal, then close by computation /
     linear arithmetic.  Used so that a harmless restructuring of the translated
